@@ -52,7 +52,7 @@ func main() {
 	r.Rule("worlds: 3-8 stores (ordinary / engine=tiflash; up, offline, down, reject-leader label, leader transfer paused), location labels on/off, placement rules off/default/tiflash-learner/custom, builder modes joint/demote/legacy, 2-5 replicas, regions placed with a skewed store distribution (some peers on stores out of service, some pending/down peers). scatter: one RegionScatterer per world over regions x rounds calls in 1-4 groups (Scatter, ScatterRegions, ScatterRegionsByID), regions scattered repeatedly, part of the operators executed on the world. schedulers: the ten built-in types created by schedule.CreateScheduler on the real OperatorController, interleaved calls, hot statistics fed through the real HotCache, operators executed on the world or left running. evaluations = operators replayed on the store simulator and judged; batch-retry: 48 (quick) / 96 per shard (thorough) scenarios where the preferred target store leaves service between the failed first attempt and the retry of a batch. distinct = distinct (producer, rules mode, step-kind sequence) shapes")
 	r.Assume("pkg/mock/mockcluster is the cluster (real PersistOptions, RuleManager, filters, HotCache, BasicCluster); lib/sim is the store; an operator is judged against the region the cluster held when it was produced")
 	r.Assume("store states are those of the world description: a store is in service (up; reject-leader and paused stores are up), offline, or down (never heartbeated); busy / disconnected / low-space stores are not generated (the statement does not say whether they are 'up')")
-	r.Assume("'refuses leaders' = reject-leader label property, leader transfer paused, evict-leader configured, or paused by a grant-leader scheduler (a transfer by the grant-leader scheduler to its own store is the documented exception); a leader transfer to an offline/down store is only counted")
+	r.Assume("'refuses leaders' = some entry of the configured reject-leader property list (0-4 entries set one by one through PersistOptions.SetLabelProperty, often several values of one key, duplicates, different keys) equals one of the store's labels - computed by the harness from the world description, not through pd's CheckLabelProperty -, leader transfer paused, evict-leader configured, or paused by a grant-leader scheduler (a transfer by the grant-leader scheduler to its own store is the documented exception); a leader transfer to an offline/down store is only counted")
 	r.Assume("a step that the simulated store refuses (other than a second peer on a store) is reported as operator-step-refused: the operator cannot complete, so it cannot preserve anything; origins in a joint state or without leader are not generated")
 	r.Assume("batch-retry family: a double of the cluster (embedding the mockcluster) reports one region of a ScatterRegions / ByID / ByRange batch (retryLimit 1-3) hot or not fully replicated exactly once and at that moment sets the store preferred by the seeded selection history offline / tombstone / down / disconnected (no heartbeat for 5 minutes); operators are judged against the store states at the time the batch returns; the other regions of the batch already hold a peer on that store, so no first-attempt operator can legitimately add one there")
 	r.Assume("the scatterer forgets a group after 3 minutes without use (TTL cache); a world lives for about a second, the loss classifier assumes nothing was forgotten")
